@@ -152,8 +152,47 @@ func dynamicKey(fn *ssa.Function, v ssa.Value) string {
 		return funcKey(fn) + "#" + x.Name()
 	case *ssa.FreeVar:
 		return funcKey(fn) + "#" + x.Name()
+	case *ssa.Extract:
+		if lk, ok := x.Tuple.(*ssa.Lookup); ok && x.Index == 0 {
+			if _, isMap := lk.X.Type().Underlying().(*types.Map); isMap {
+				return dynamicKey(fn, lk.X) + "[]"
+			}
+		}
+		// the function returned by a call: <callee>#result<i>
+		if cl, ok := x.Tuple.(*ssa.Call); ok {
+			if k := commonKey(&cl.Call); k != "" {
+				return fmt.Sprintf("%s#result%d", k, x.Index)
+			}
+		}
+	case *ssa.Call:
+		if k := commonKey(&x.Call); k != "" {
+			return k + "#result0"
+		}
+	case *ssa.Lookup:
+		if _, isMap := x.X.Type().Underlying().(*types.Map); isMap {
+			return dynamicKey(fn, x.X) + "[]"
+		}
 	}
 	return funcKey(fn) + "#dynamic:" + v.Name()
+}
+
+// commonKey: the contract key of a statically named callee or interface method ("" otherwise).
+func commonKey(cc *ssa.CallCommon) string {
+	if cc.IsInvoke() {
+		if recv := cc.Method.Type().(*types.Signature).Recv(); recv != nil {
+			if n, ok := types.Unalias(recv.Type()).(*types.Named); ok {
+				return ifaceMethodKey(n, cc.Method.Name())
+			}
+		}
+		if n, ok := types.Unalias(cc.Value.Type()).(*types.Named); ok {
+			return ifaceMethodKey(n, cc.Method.Name())
+		}
+		return ""
+	}
+	if f := cc.StaticCallee(); f != nil {
+		return funcKey(originOf(f))
+	}
+	return ""
 }
 
 func (fr *Frame) findClosure(mc *ssa.MakeClosure) *closureVal {
